@@ -74,13 +74,14 @@ def finish(ck: Check, tier: str, t0: float, explanation: str, assumptions: list[
            extra: dict | None = None, repo_root: str = "/repo", write_evidence: bool = True) -> int:
     known = load_known()
     open_keys = {(k["property"], k["rule"], k["key"]): k for k in known.get("open", [])}
-    for rule, minimum in ck.floors.items():
-        n = sum(1 for o in ck.obs if o.rule == rule)
-        if n < minimum:
-            raise AnalysisError(
-                f"rule {rule}: only {n} instance(s) found, {minimum} confirmed by hand on the reference "
-                f"tree -- the construct the rule is anchored in has vanished")
     viol = [o for o in ck.obs if not o.ok]
+    if not viol:  # a reported violation is an answer; floors guard against vacuous passes only
+        for rule, minimum in ck.floors.items():
+            n = sum(1 for o in ck.obs if o.rule == rule)
+            if n < minimum:
+                raise AnalysisError(
+                    f"rule {rule}: only {n} instance(s) found, {minimum} confirmed by hand on the reference "
+                    f"tree -- the construct the rule is anchored in has vanished")
     new_viol = []
     for o in viol:
         kf = open_keys.get((ck.prop, o.rule, o.key))
